@@ -572,6 +572,14 @@ def run(ctx, impl_only=False):
             and 'type_changes' in DeepDiff([_dt.datetime(2024, 5, 1)], [1], ignore_numeric_type_changes=True, truncate_datetime='minute')
             and DeepDiff({_dt.datetime(2024, 5, 1): 1}, {_dt.datetime(2024, 5, 1): 1}, ignore_numeric_type_changes=True) == {}),
     ]
+    def _f72():
+        import enum as _en
+        class _C(_en.Enum):
+            RED = 1
+            GREEN = 2
+        return (bool(DeepDiff([_C.RED, _C.GREEN], [2, 3], ignore_order=True, use_enum_value=True)) and DeepDiff([_C.RED, _C.GREEN], [2, 1], ignore_order=True, use_enum_value=True) == {}
+                and 0 <= DeepDiff([[_C.RED, 5], [_C.GREEN]], [[2], [1, 6]], ignore_order=True, use_enum_value=True, get_deep_distance=True).get('deep_distance', 0) <= 1)
+    regress.append(('F72', _f72))
     regress.append(('F69', lambda: 'values_changed' in DeepDiff({b'\xff': 1}, {b'\xff': 2}, ignore_string_type_changes=True) and DeepDiff({b'\xfe\x00': [1]}, {b'\xfe\x00': [1]}, ignore_string_type_changes=True, ignore_string_case=True) == {}))
     regress.append(('F27', lambda: DeepDiff([1.5, 'a'], ['a', b'a'], exclude_types=[float], ignore_string_type_changes=True) == {}
                     and DeepDiff((10.0, 10), (31.25, 10), exclude_types=[float]) == {}))
